@@ -284,7 +284,24 @@ func (r *Runner) lockRelease(st *State, p *Place, pos token.Pos, reader bool) {
 				if strings.HasPrefix(c.Label, "wait:") != r.inWait {
 					continue
 				}
-				r.oblige(st, "cs", c.Label, env.EvalBool(c.E, st), pos)
+				func() {
+					// a clause may mention locals that are not in scope on an early-exit path: it is
+					// skipped there (and must be evaluated on at least one path, checked after the run)
+					defer func() {
+						if e := recover(); e != nil {
+							se, ok := e.(specErr)
+							if !ok || !strings.Contains(se.msg, "unresolved identifier") {
+								panic(e)
+							}
+						}
+					}()
+					g := env.EvalBool(c.E, st)
+					if r.csEvaluated == nil {
+						r.csEvaluated = map[string]bool{}
+					}
+					r.csEvaluated[c.Label] = true
+					r.oblige(st, "cs", c.Label, g, pos)
+				}()
 			}
 		}
 	}
@@ -621,7 +638,59 @@ func (r *Runner) newError(st *State, t types.Type) Val {
 
 // funcParamCall: calling a func-typed parameter (unknown code).
 func (r *Runner) funcParamCall(st *State, f *Frame, fnv Val, common *ssa.CallCommon, args []Val, res ssa.Value, pos token.Pos) bool {
-	return false
+	// A call of a function value that is not a known literal (a func-typed parameter or field):
+	// modelled as a PURE uninterpreted function of the function value and the argument contents
+	// (assumption, listed in the evidence). Only scalar / boolean results are modelled.
+	if fnv.T == nil || len(fnv.C) != 1 {
+		return false
+	}
+	sig, ok := fnv.T.Underlying().(*types.Signature)
+	if !ok {
+		return false
+	}
+	var as []Term
+	as = append(as, fnv.C[0])
+	for _, a := range args {
+		switch {
+		case a.T != nil && isSlice(a.T) && len(layout(elemOf(a.T))) == 1:
+			as = append(as, st.backingArr(a, elemOf(a.T), 0), a.C[1], a.C[2])
+		default:
+			as = append(as, a.C...)
+		}
+	}
+	r.nilCheck(st, fnv, "call of nil func "+exprText(f.fn, common.Value), pos)
+	var rets []Val
+	if res != nil {
+		rt := sig.Results()
+		out := Val{T: res.Type()}
+		for i := 0; i < rt.Len(); i++ {
+			ls := layout(rt.At(i).Type())
+			if len(ls) != 1 || (ls[0].Sort != SBool && ls[0].Sort != SInt) {
+				return false
+			}
+			c := uf(fmt.Sprintf("fnres%d_%s", i, ls[0].Sort), ls[0].Sort, as...)
+			rv := Val{T: rt.At(i).Type(), C: []Term{st.define("fnres", c)}}
+			st.assumeRange(rv)
+			rets = append(rets, rv)
+			out.C = append(out.C, rv.C...)
+		}
+		if rt.Len() == 1 {
+			out = rets[0]
+		}
+		f.regs[res] = out
+	}
+	r.note("func-typed value " + exprText(f.fn, common.Value) + " modelled as a pure function of its arguments")
+	// call history under the source name of the function value
+	name := exprText(f.fn, common.Value)
+	if st.lastCall == nil {
+		st.lastCall = map[string]callRec{}
+	}
+	if prev, had := st.lastCall[name]; had {
+		st.lastCall["prev:"+name] = prev
+	}
+	st.lastCall[name] = callRec{args: args, rets: rets}
+	st.ghost["calls:"+name] = st.define("calls", Add(r.callsTerm(st, name), One))
+	return true
 }
 
 // model handles functions with built-in semantics. Returns true if handled.
